@@ -1,6 +1,6 @@
 (* Comparison of the problems recorded at pulp.LpProblem.solve with the model's trace, with the recorded
    answers replayed as the oracle. *)
-From MP Require Import Text.Import LP.Run Run.Results.
+From MP Require Import Text.Import LP.Run LP.Oracle Run.Results.
 Local Open Scope string_scope.
 Local Open Scope list_scope.
 Open Scope Z_scope.
@@ -12,13 +12,6 @@ Record snap := mkSnap {
   sn_bounds : list (var * (Z * Z));
   sn_dup_names : bool;
   sn_answer : answer }.
-
-Definition model_bounds (M : instance) (objs : list objinfo) (x : var) : Z * Z :=
-  match x with
-  | X _ _ | Alpha _ _ | Beta _ _ | Closure _ => (0, 1)
-  | AbsDiff k => (0, nth1 (l_uq M) k 0)
-  | Obj n => (0, match nth_error objs n with Some oi => oi_ub oi | None => -1 end)
-  end.
 
 Definition snap_matches (M : instance) (P : problem) (s : snap) : bool :=
   constrs_eqb (pb_cs P) (sn_cs s) &&
